@@ -10,7 +10,7 @@ func init() {
 				Reach:     []string{"single", "batch of several", "empty batch"},
 				Functions: []string{"(*Gateway).Handler", "(*Gateway).queryHandler", "(*Gateway).queryHandler$1", "(*Gateway).queryHandler$2", "Results.Emit", "emitError", "(*Gateway).parseIntrospectionQuery", "(*Gateway).getQueryers", "requests.Parse", "requests.parseRequest", "common.AsyncMapReduce[int,*Result,Results]", "planner.SequentialPlanner.Plan", "introspection.(*IntrospectionResolver).ResolveIntrospectionFields", "gqlerrors.FormatError"}},
 			{Name: "batches-of-three", Pkg: ".", Files: []string{"root/fed.go", "root/c01.go", "root/c08.go"}, Entry: "VerifBatch", Mode: "all", Race: true, ThoroughOnly: true,
-				Thorough: map[string]int{"rmax": 3, "rmin": 3, "classes": 6, "budget_s": 3000},
+				Thorough:  map[string]int{"rmax": 3, "rmin": 3, "classes": 6, "budget_s": 3000},
 				Reach:     []string{"batch of several"},
 				Functions: []string{"(*Gateway).Handler", "(*Gateway).queryHandler", "(*Gateway).queryHandler$1", "(*Gateway).queryHandler$2", "Results.Emit", "emitError", "(*Gateway).parseIntrospectionQuery", "(*Gateway).getQueryers", "requests.Parse", "requests.parseRequest", "common.AsyncMapReduce[int,*Result,Results]", "planner.SequentialPlanner.Plan", "introspection.(*IntrospectionResolver).ResolveIntrospectionFields", "gqlerrors.FormatError"}},
 			{Name: "batch-with-plan-cache", Pkg: ".", Files: []string{"root/fed.go", "root/c01.go", "root/c08.go"}, Entry: "VerifBatchCached", Mode: "seq", Native: true,
